@@ -263,4 +263,4 @@ def names_in(a):
 
 
 if __name__ == '__main__':
-    main()
+    guarded(main)
